@@ -383,11 +383,28 @@ func (s *crashScenario) startGatedViaFastSync(g *gated) (stop func(), err error)
 	fsCfg.SyncTimeout = 100 * time.Millisecond
 	bcR := bcreactor.NewBlockchainReactor(g.CS.VerifState(), g.BE, g.Ops, fsCfg)
 	conR := consensus.NewConsensusManager(g.CS, fsCfg)
-	sw := p2p.MakeSwitch(configs.DefaultP2PConfig(), 0, "verif", "1.0", func(i int, sw *p2p.Switch) *p2p.Switch {
-		sw.AddReactor("BLOCKCHAIN", bcR)
-		sw.AddReactor("CONSENSUS", conR)
-		return sw
-	})
+	// (p2p.MakeSwitch listens on a "free" port it picked a moment earlier and panics when another process took it in
+	// between: that is the test utility's race, not the node's behaviour - try again, and give up as infrastructure)
+	var sw *p2p.Switch
+	for attempt := 0; attempt < 8 && sw == nil; attempt++ {
+		func() {
+			defer func() {
+				if r := recover(); r != nil {
+					err = fmt.Errorf("infra:listen: %v", r)
+					time.Sleep(time.Duration(20+attempt*30) * time.Millisecond)
+				}
+			}()
+			sw = p2p.MakeSwitch(configs.DefaultP2PConfig(), 0, "verif", "1.0", func(i int, sw *p2p.Switch) *p2p.Switch {
+				sw.AddReactor("BLOCKCHAIN", bcR)
+				sw.AddReactor("CONSENSUS", conR)
+				return sw
+			})
+		}()
+	}
+	if sw == nil {
+		return func() {}, err
+	}
+	err = nil
 	sw.SetLogger(log.New())
 	if err := sw.Start(); err != nil {
 		return func() {}, err
@@ -891,7 +908,9 @@ func crashOnce(w *World, mode string, victim int, heights uint64, cut int, walVa
 		if strings.HasSuffix(out.WalVariant, "-fastsync") {
 			stop, err := s.startGatedViaFastSync(g)
 			stopSwitch = stop
-			if err != nil {
+			if err != nil && strings.HasPrefix(err.Error(), "infra:") {
+				out.Problems = append(out.Problems, err.Error())
+			} else if err != nil {
 				out.StartErr = "start through fast sync failed: " + err.Error()
 			}
 		} else if err := s.startGated(g); err != nil {
@@ -899,7 +918,7 @@ func crashOnce(w *World, mode string, victim int, heights uint64, cut int, walVa
 		}
 	}()
 	defer stopSwitch()
-	if out.StartErr != "" {
+	if out.StartErr != "" || len(out.Problems) > 0 {
 		nv.Close()
 		return
 	}
